@@ -18,6 +18,15 @@ def cells(rows):
     return "[" + "; ".join("[" + "; ".join("None" if math.isnan(c) else "Some %s" % qa(c) for c in r) + "]" for r in rows) + "]"
 
 
+def close_each(a, b, tol=1e-9):
+    """element-wise relative closeness: a block mean is a local quantity, a huge sample elsewhere is no excuse"""
+    a = np.asarray(a, dtype=float)
+    b = np.asarray(b, dtype=float)
+    if a.shape != b.shape:
+        return False
+    return bool(np.all(np.abs(a - b) <= tol * (1 + np.abs(b))))
+
+
 def close(a, b, tol=1e-9):
     a = np.asarray(a, dtype=float)
     b = np.asarray(b, dtype=float)
@@ -109,9 +118,9 @@ Definition al := approx_list.
                 c["key"] = [0, 0, 0]
             c["val"] = gens.dyadic(rng, -8, 8, 2)
         elif op == "avg_roundtrip":
-            c["y"] = gens.values(rng, L)
+            c["y"] = gens.values(rng, L, "burst" if rng.random() < 0.15 else None)
         elif op == "average":
-            c["y"] = gens.values(rng, L)
+            c["y"] = gens.values(rng, L, "burst" if rng.random() < 0.15 else None)
         elif op == "to2d_closed":
             c["drop_last"] = rng.random() < 0.5
         elif op == "iov":
@@ -394,10 +403,10 @@ Definition al := approx_list.
             y = c["y"]
             ex = [a[r * n] for r in range(m)]
             ey = [sum(y[r * n:(r + 1) * n]) / len(y[r * n:(r + 1) * n]) for r in range(m)]
-            if not close(o["x"], ex) or not close(o["y"], ey):
+            if not close(o["x"], ex) or not close_each(o["y"], ey):
                 fail("average", "gave %s / %s expected %s / %s" % (o["x"], o["y"], ex, ey))
         elif op == "avg_roundtrip":
-            if n >= 2 and (not close(o["x"], a, 1e-12) or not close(o["y"], c["y"], 1e-12)):
+            if n >= 2 and (not close(o["x"], a, 1e-12) or not close_each(o["y"], c["y"], 1e-12)):
                 fail("average-roundtrip", "average(oversample) = %s / %s, input %s / %s" % (o["x"], o["y"], a, c["y"]))
         return F
 
